@@ -5,7 +5,7 @@ package main
 // component tlscfg: router.VerifMakeTlsConfig on every combination of options; files live in a
 // temporary directory (CA 1, CA 2, key pairs 1 and 2, a garbage file "bad").
 //   req=<0|1> cert=<-|1|2|bad> key=<-|1|2|bad> ca=<-|1|2|bad> insecure=<0|1> vcc=<0|1> temp=<0|1>
-//   -> insecure=<0|1> root=<nil|1|2> client=<nil|1|2> auth=<n> certs=<none|temp|1|2> | err:<missing|ca|cert>
+//   -> insecure=<0|1> root=<nil|1|2> client=<nil|1|2> auth=<n> certs=<none|temp|1|2> cache=<nil|set> | err:<missing|ca|cert>
 //
 // component handshake: real handshakes through the real router (router.VerifRun).
 //   side=up proto=<dot|doh|doq> peer=<valid|wrongname|unknownca|expired|selfsigned> swc=<0|1> <options>
@@ -226,8 +226,12 @@ func c17cfgRun(cs string) string {
 			}
 		}
 	}
-	return fmt.Sprintf("insecure=%s root=%s client=%s auth=%d certs=%s", b2s(c.InsecureSkipVerify), c17poolName(c.RootCAs),
-		c17poolName(c.ClientCAs), int(c.ClientAuth), certs)
+	cache := "nil"
+	if c.ClientSessionCache != nil {
+		cache = "set"
+	}
+	return fmt.Sprintf("insecure=%s root=%s client=%s auth=%d certs=%s cache=%s", b2s(c.InsecureSkipVerify), c17poolName(c.RootCAs),
+		c17poolName(c.ClientCAs), int(c.ClientAuth), certs, cache)
 }
 
 func c17cfgGen(r *rand.Rand, thorough bool, emit func(c, cat string)) {
